@@ -283,6 +283,20 @@ class Builder:
         return tys.FunctionType(self.row(d[1]), self.row(d[2]), list(d[3]))
 
     def ty(self, d, sugar=True):
+        """the type object of a descriptor.  Equal sub-descriptors of one Builder are ONE object every other time (a
+        type object used at several positions of an expression: aliasing must be harmless); composite kinds only."""
+        if d[0] in ("sum", "tuple", "option", "either", "func", "array", "list", "ext", "opaque", "int") and not self.no_share:
+            key = repr((d, sugar))
+            if len(key) % 2 == 0:
+                memo = self.__dict__.setdefault("_ty_memo", {})
+                if key not in memo:
+                    memo[key] = self._ty(d, sugar)
+                return memo[key]
+        return self._ty(d, sugar)
+
+    no_share = False
+
+    def _ty(self, d, sugar=True):
         from hugr import tys
 
         k = d[0]
